@@ -28,10 +28,13 @@ type Transaction struct {
 	Description string
 	Payee       string
 	Note        string
-	Postings    []Posting
-	Tags        []Tag
-	Comments    []Comment
-	Range       Range
+	// PayeeRange covers the payee as written on the header line (the whole
+	// description when there is no "payee | note" split); zero when absent.
+	PayeeRange Range
+	Postings   []Posting
+	Tags       []Tag
+	Comments   []Comment
+	Range      Range
 }
 
 type Date struct {
@@ -139,6 +142,8 @@ func (d CommodityDirective) GetRange() Range { return d.Range }
 type Include struct {
 	Path  string
 	Range Range
+	// PathRange covers the path as written after the keyword.
+	PathRange Range
 }
 
 func (Include) directive()        {}
